@@ -201,6 +201,13 @@ def _after_hashes(line):
     return i, n, line[j:]
 
 
+def _ends_with_hash(rest):
+    k = len(rest)
+    while k > 0 and (rest[k - 1] == " " or rest[k - 1] == "\t"):
+        k -= 1
+    return k > 0 and rest[k - 1] == "#"
+
+
 def md019(lines, md_tokens):
     """rule_md019.md: ATX heading with more than one space between the hashes and the first
     non-space character of its text"""
@@ -214,6 +221,8 @@ def md019(lines, md_tokens):
         rest = p[2]
         if "\t" in rest:
             return None  # TAB after the hashes: outside this oracle
+        if _ends_with_hash(rest):
+            return None  # closed ATX heading: MD021's subject, not MD019's
         k = 0
         while k < len(rest) and rest[k] == " ":
             k += 1
@@ -244,6 +253,8 @@ def md018(lines, md_tokens):
                 if p is None:
                     continue
                 rest = p[2]
+                if _ends_with_hash(rest):
+                    return None  # looks like a closed ATX heading: MD020's subject
                 if len(rest) > 0 and not (rest[0] == " " or rest[0] == "\t" or rest[0] == "#"):
                     out.append(ln + 1)
     return out
